@@ -71,6 +71,14 @@ type SourceSpec struct {
 
 	// OpenFail: Open of plugin instance k fails (0 = never).
 	OpenFailInst int `json:"open_fail_inst,omitempty"`
+
+	// AckSendFail: the host's stream.Send of an ack message fails without delivering it at these
+	// attempt indices (0-based, counted per connector across plugin instances): transient failures
+	// of the plugin stream. AckSendBreakAt >= 0: from that attempt on every Send of plugin
+	// instance 1 fails (a broken stream); -1/absent = never. A zero value means "not scripted"
+	// for replay files written before the field existed, hence the +1 encoding.
+	AckSendFail      []int `json:"ack_send_fail,omitempty"`
+	AckSendBreakAtP1 int   `json:"ack_send_break_at_p1,omitempty"`
 }
 
 type ProcSpec struct {
